@@ -600,6 +600,15 @@ def s_eq(a, b):
     return mk_bool(lift(a) == lift(b))
 
 
+def s_iff(a, b):
+    """equivalence of truth values as bool/SBool (never forks)"""
+    if isinstance(a, bool) and isinstance(b, bool):
+        return a == b
+    ta = a.t if isinstance(a, SBool) else z3.BoolVal(bool(a))
+    tb = b.t if isinstance(b, SBool) else z3.BoolVal(bool(b))
+    return mk_bool(ta == tb)
+
+
 def same_int(a, b):
     """syntactic: do a and b denote the same integer for sure (no solver call)?"""
     if isinstance(a, int) and isinstance(b, int):
@@ -866,6 +875,16 @@ class Explorer:
     def note(self, *a):
         self.log.append(a)
 
+    def must(self, cond):
+        """True iff the path condition implies cond (one query, no fork)"""
+        if isinstance(cond, bool):
+            return cond
+        t = cond.t if isinstance(cond, SBool) else cond
+        try:
+            return not self._check(z3.Not(t))
+        except Inconclusive:
+            return False
+
     def _concolic_fallback(self, u, models=3):
         """the abstract domain cannot follow this path any further: hand the inputs of the path, concretised by the solver (up to
         `models` different models of the path condition), to the harness's replay on the real code.  A replay that shows a violation
@@ -959,6 +978,8 @@ class Explorer:
                 self.counters = {}
                 self.log = []
                 self.fallback = None
+                for hook in PATH_RESET:
+                    hook()
                 FUEL.left = None            # a loop budget never leaks from one path (or one obligation in the same worker) into the next
                 self.solver.push()
                 CUR = self
@@ -1054,6 +1075,7 @@ class Fuel:
 
 
 FUEL = Fuel()
+PATH_RESET = []         # callables run at the start of every path (per-path switches of the models go back to their defaults)
 
 
 def choose(name, options):
